@@ -86,6 +86,34 @@ def run(ctx, repo):
                 elif exc == 'RuleViolation':
                     ctx.ok('R2', '%s.%s refuses with RuleViolation' % k)
     ctx.floor('(entry, raising outcome) pairs', n_raise_paths, 10)
+    # a refusal that is not written as a raise: looking the athlete up by a bib the caller passes (`self.jumpers_by_bib[bib]`) raises
+    # KeyError for an athlete who never joined, unless the membership was tested first and refused with RuleViolation
+    for fdef in [x for x in comp.body if isinstance(x, ast.FunctionDef)]:
+        params_ = {a.arg for a in fdef.args.args} - {'self'}
+        for sub_ in [x for x in ast.walk(fdef) if isinstance(x, ast.Subscript) and isinstance(x.ctx, ast.Load) and isinstance(x.value, ast.Attribute)
+                     and x.value.attr == 'jumpers_by_bib' and isinstance(x.slice, ast.Name) and x.slice.id in params_]:
+            key_ = sub_.slice.id
+            tested = any(isinstance(c, ast.Compare) and len(c.ops) == 1 and isinstance(c.ops[0], (ast.In, ast.NotIn)) and isinstance(c.left, ast.Name)
+                         and c.left.id == key_ and 'jumpers_by_bib' in ast.unparse(c.comparators[0]) and c.lineno <= sub_.lineno for c in ast.walk(fdef))
+            caught = any(isinstance(t, ast.Try) and any(y is sub_ for st_ in t.body for y in ast.walk(st_)) and any(
+                h.type is None or 'KeyError' in ast.unparse(h.type) or 'LookupError' in ast.unparse(h.type) or ast.unparse(h.type) == 'Exception'
+                for h in t.handlers) for t in ast.walk(fdef))
+            # or an earlier call in the same method hands the bib to a sibling method that tests it (retired -> check_started)
+            for c in ast.walk(fdef):
+                if isinstance(c, ast.Call) and isinstance(c.func, ast.Attribute) and isinstance(c.func.value, ast.Name) and c.func.value.id == 'self' \
+                        and c.args and isinstance(c.args[0], ast.Name) and c.args[0].id == key_ and c.lineno < sub_.lineno:
+                    callee = [m_ for m_ in comp.body if isinstance(m_, ast.FunctionDef) and m_.name == c.func.attr]
+                    if callee and len(callee[0].args.args) > 1:
+                        p0 = callee[0].args.args[1].arg
+                        if any(isinstance(t_, ast.Compare) and len(t_.ops) == 1 and isinstance(t_.ops[0], (ast.In, ast.NotIn)) and isinstance(t_.left, ast.Name)
+                               and t_.left.id == p0 and 'jumpers_by_bib' in ast.unparse(t_.comparators[0]) for t_ in ast.walk(callee[0])):
+                            tested = True
+            if tested or caught:
+                ctx.ok('R2', '%s.%s: the bib is tested before the athlete is looked up' % (COMP, fdef.name))
+            else:
+                ctx.finding('R2', '%s::%s.%s::unknown bib raises KeyError' % (HJ, COMP, fdef.name), HJ, sub_.lineno,
+                            '%s.%s looks the athlete up with `%s` without testing that the bib belongs to the competition: a trial for an athlete who '
+                            'never joined is refused with KeyError, not with RuleViolation' % (COMP, fdef.name, unparse(sub_)), "failed('Z') for a bib never added")
     # RuleViolation must be the package's own exception
     imp = [n for n in mod.tree.body if isinstance(n, ast.ImportFrom) and any(a.name == 'RuleViolation' for a in n.names)]
     if not imp:
